@@ -442,7 +442,11 @@ func c12Refresh(c *Ctx, b *Bed, ecs bool, mode string) {
 	cls := make([]cl, n)
 	for i := range cls {
 		ip := fmt.Sprintf("127.%d.%d.%d", 20+i%200, (i*7)%256, 1+i%250)
-		cls[i] = cl{ip: ip, name: fmt.Sprintf("ok-n2-ttl6-rf%dx%d.pipe.test.", i, c.Seed), addr: netip.MustParseAddr(ip)}
+		first := "ok-n2-ttl6"
+		if i%2 == 0 {
+			first = "ok-opt-n4-ttl6" // the upstream answers with an OPT record (options, DO) of its own
+		}
+		cls[i] = cl{ip: ip, name: fmt.Sprintf("%s-rf%dx%d.pipe.test.", first, i, c.Seed), addr: netip.MustParseAddr(ip)}
 	}
 	listeners := []string{"udp", "tcp", "gnet"}
 	ask := func(i, round int) {
@@ -451,14 +455,25 @@ func c12Refresh(c *Ctx, b *Bed, ecs bool, mode string) {
 		q.RecursionDesired = true
 		q.Question = []dns.Question{{Name: cls[i].name, Qtype: dns.TypeA, Qclass: dns.ClassINET}}
 		wire, _ := q.Pack()
-		b.Exchange(listeners[(i+round)%3], wire, xOpts{LocalIP: cls[i].ip, Timeout: 4 * time.Second})
+		x := b.Exchange(listeners[(i+round)%3], wire, xOpts{LocalIP: cls[i].ip, Timeout: 4 * time.Second})
+		// these clients do not use EDNS0: whatever entry answers them (first fetch, cached, refreshed in the
+		// background), the response carries no OPT record
+		if x.Err == nil && len(x.Resp) > 0 {
+			c.Ev.Eval(1)
+			if nOpt, _, _, err := c12RawOPTs(x.Resp); err == nil && nOpt > 0 {
+				c.Violation("opt-without-request:"+mode+":refresh-phase", fmt.Sprintf("response carries %d OPT record(s) although the query had none (round %d of the refresh phase: 0 = first fetch, 1-2 = hits that start the refresh, 3 = after the refresh)", nOpt, round),
+					c12Probe{Listener: listeners[(i+round)%3], Name: cls[i].name, ClientAddr: cls[i].ip, QueryHex: hex.EncodeToString(wire)})
+			}
+		}
 	}
 	parallelFor(n, n, nil, func(i int) { ask(i, 0) })
 	time.Sleep(4750 * time.Millisecond) // 6 s entries: the last quarter starts at 4.5 s, 1.25 s remain
 	for round := 1; round <= 2; round++ {
 		parallelFor(n, n, nil, func(i int) { ask(i, round) })
 	}
-	time.Sleep(500 * time.Millisecond)
+	time.Sleep(600 * time.Millisecond)
+	parallelFor(n, n, nil, func(i int) { ask(i, 3) }) // answered from what the background refresh stored
+	time.Sleep(200 * time.Millisecond)
 	byName := map[string]int{}
 	for i := range cls {
 		byName[strings.ToLower(cls[i].name)] = i
